@@ -4,7 +4,7 @@ sys.path.insert(0, os.path.dirname(os.path.dirname(os.path.abspath(__file__))))
 import progen
 
 PID = "C08"
-CASE_LIMIT = {"C08": 15}   # seconds: these cases are function calls, not sessions
+CASE_LIMIT = {"C08": 45}   # seconds: these cases are function calls, not sessions
 RULE = ("random operator DAGs of 1..8 nodes (shared sub-slices, multi-input cogroup, nested shuffles, prefix-2 reshuffles, "
         "custom partitioners, reduce combiners with and without machine combiners, Materialize/Procs/Exclusive pragmas, "
         "reshard to the same and to other shard counts), with 0..2 earlier results as arguments (used through pipelined and "
